@@ -44,6 +44,11 @@ EncString(mj, s, text) ==
             b \in IF MaxChunks = 0 THEN {} ELSE UNION {CatAll([i \in 1..Len(c) |-> {h \o c[i] : h \in HeadsN(mj, RLen(c[i]))}])
                            : c \in AllChunkings(s, text)}}
 
+\* a container around the concatenated encodings of its n items / n pairs: definite or indefinite length
+ArrOf(n, body) == {h \o body : h \in HeadsN(4, n)} \cup {<<159>> \o body \o <<255>>}
+MapOf(n, body) == {h \o body : h \in HeadsN(5, n)} \cup {<<191>> \o body \o <<255>>}
+TagOf(m, body) == {h \o body : h \in Heads(6, m)}
+
 RECURSIVE Enc(_)
 Enc(v) ==
     CASE v.t = "null"  -> {<<246>>}
@@ -53,22 +58,19 @@ Enc(v) ==
       [] v.t = "f64"   -> EncFloat(v)
       [] v.t = "str"   -> EncString(3, v.s, TRUE)
       [] v.t = "bin"   -> EncString(2, v.x, FALSE)
-      [] v.t = "tag"   -> {h \o b : h \in Heads(6, v.tag), b \in Enc(v.v)}
-      [] v.t = "nulls" -> {h \o Rep(v.n, 246) : h \in HeadsN(4, v.n)} \cup {<<159>> \o Rep(v.n, 246) \o <<255>>}
-      [] v.t = "arr"   -> LET bs == CatAll([i \in 1..Len(v.a) |-> Enc(v.a[i])]) IN
-                          {h \o b : h \in HeadsN(4, Len(v.a)), b \in bs} \cup {<<159>> \o b \o <<255>> : b \in bs}
-      [] v.t = "map"   -> LET bs == CatAll([i \in 1..(2 * Len(v.k)) |->
-                                      IF i % 2 = 1 THEN Enc(Str(v.k[(i + 1) \div 2])) ELSE Enc(v.v[i \div 2])]) IN
-                          {h \o b : h \in HeadsN(5, Len(v.k)), b \in bs} \cup {<<191>> \o b \o <<255>> : b \in bs}
+      [] v.t = "tag"   -> UNION {TagOf(v.tag, b) : b \in Enc(v.v)}
+      [] v.t = "nulls" -> ArrOf(v.n, Rep(v.n, 246))
+      [] v.t = "arr"   -> UNION {ArrOf(Len(v.a), b) : b \in CatAll([i \in 1..Len(v.a) |-> Enc(v.a[i])])}
+      [] v.t = "map"   -> UNION {MapOf(Len(v.k), b) :
+                                    b \in CatAll([i \in 1..(2 * Len(v.k)) |->
+                                           IF i % 2 = 1 THEN Enc(Str(v.k[(i + 1) \div 2])) ELSE Enc(v.v[i \div 2])])}
 
 \* the shortest encoding, and the header alternatives of a large container around
 \* shortest encodings of its parts (a subset of Enc(v) that stays enumerable)
 EncMin(v) == CHOOSE e \in Enc(v) : \A o \in Enc(v) : RLen(e) <= RLen(o)
 EncOuter(v) ==
-    CASE v.t = "arr" -> LET b == Flat([i \in 1..Len(v.a) |-> EncMin(v.a[i])]) IN
-                        {h \o b : h \in HeadsN(4, Len(v.a))} \cup {<<159>> \o b \o <<255>>}
-      [] v.t = "map" -> LET b == Flat([i \in 1..Len(v.k) |-> EncMin(Str(v.k[i])) \o EncMin(v.v[i])]) IN
-                        {h \o b : h \in HeadsN(5, Len(v.k))} \cup {<<191>> \o b \o <<255>>}
+    CASE v.t = "arr" -> ArrOf(Len(v.a), Flat([i \in 1..Len(v.a) |-> EncMin(v.a[i])]))
+      [] v.t = "map" -> MapOf(Len(v.k), Flat([i \in 1..Len(v.k) |-> EncMin(Str(v.k[i])) \o EncMin(v.v[i])]))
       [] OTHER -> Enc(v)
 
 \* torepr: byte strings come back as strings of the same bytes, a tag is transparent
